@@ -536,8 +536,9 @@ func (ng *nestGen) junk(forbidden string) []sym {
 			out = append(out, sym{kind: kLeaf, leaf: 't', src: "t"})
 		case 4:
 			// an opening delimiter that is not closed inside the interior: bytes like any other (the interior is lexical).
-			// No blank at its edge: a neighbour's hyphen strips white space at the edge of a raw body (known finding K-C05-raw-trimmed-by-neighbour-hyphen), which is not this stream's subject
-			out = append(out, sym{kind: kLeaf, leaf: 'j', src: ng.g.Pick([]string{"{{-", "{% q", "{{", "{%-"})}) // 'j': not a text that withMarkers renames
+			// With blanks at its edge again: a neighbour's hyphen no longer strips white space at the edge of a raw body
+			// (repair verbatim-output-not-trimmed; formerly K-C05-raw-trimmed-by-neighbour-hyphen)
+			out = append(out, sym{kind: kLeaf, leaf: 'j', src: ng.g.Pick([]string{"{{ ", "{% q ", "{{", "{%- ", "{{-", "{% q"})}) // 'j': not a text that withMarkers renames
 		case 1:
 			a := ng.g.Pick([]string{"x", "|", "a b", "a.b | upcase", "1"})
 			out = append(out, sym{kind: kLeaf, leaf: 'o', src: "{{" + a + "}}", args: a})
